@@ -790,10 +790,12 @@ class Gen:
                 msh = self.sub_broadcast_shape(sh)
                 n = int(np.prod(msh)) if msh else 1
                 s["where"] = {"sh": list(msh), "v": [r.random() < 0.6 for _ in range(n)]}
-                if not msh and r.random() < 0.6:
-                    s["wsp"] = "py"       # the mask is spelled as a Python bool (the specification does not see it)
+                if not msh and not s["where"]["v"][0] and r.random() < 0.6:
+                    # the mask False spelled as a Python bool (the specification does not see the spelling; the Python bool
+                    # True, however, MEANS "no mask": the old contents are not an input at all, so it is not a spelling)
+                    s["wsp"] = "py"
             elif r.random() < 0.15:
-                s["where"] = {"sh": [], "v": [r.random() < 0.5]}
+                s["where"] = {"sh": [], "v": [False]}
                 s["wsp"] = "py"
         return self.emit(s)
 
